@@ -48,7 +48,14 @@ def _gradesel_jobs(tier, seed):
 
 
 def standins(tier, seed):
-    return K.symcoef_jobs('C04', ['add', 'sub', 'neg', 'reverse', 'involute', 'conjugate'], tier, seed, extra_configs=K.CUSTOM) + _gradesel_jobs(tier, seed)
+    # the same sums, differences and involutions written inside registered functions (evaluated on recorders instead of multivectors),
+    # with a plain number on either side
+    forms = ['(a + b)', '(a - b)', '(-a)', '(2 - a)', '(a - 2)', '(2 + a)', '(a + 2)', '(b - (2 - a))', '(~a)', 'a.involute()', 'a.conjugate()',
+             'a.grade(1)', '(a - b).grade(0, 2)']
+    reg = [{'name': f'registered-sums#{i}', 'bound': f'{len(forms)} sum / difference / involution / grade forms inside alg.register(f), seeded operands, numeric recorder path',
+            'job': {'kind': 'register', 'module': 'standins.jobs3', 'configs': [dict(c, always=forms, random=0, modes=['numeric'])], 'seed': seed * 10 + i}}
+           for i, c in enumerate([dict(p=3), dict(p=2, q=0, r=1)])]
+    return K.symcoef_jobs('C04', ['add', 'sub', 'neg', 'reverse', 'involute', 'conjugate'], tier, seed, extra_configs=K.CUSTOM) + _gradesel_jobs(tier, seed) + reg
 
 
 replay = K.replay_any
